@@ -16,7 +16,7 @@ SERVICE_LEVEL = {'raise_user', 'raise_user_unencodable', 'raise_interrupt', 'bod
 # faults after which the framework must not save the recording
 CAPTURE_FAILURES = {'badkey_key', 'handler_raises', 'resolver_raises', 'discard', 'body_discard'}
 
-EXTRACTORS = [None, 'ok', 'raises', 'junk_none', 'junk_int', 'junk_str', 'junk_pairs', 'ok_calls_output']
+EXTRACTORS = [None, 'ok', 'raises', 'junk_none', 'junk_int', 'junk_str', 'junk_pairs', 'ok_calls_output', 'ok_live_mapping']
 
 
 def base_programs(seed, n, **opts):
@@ -108,7 +108,11 @@ def execute(prog, faults, extractor=None, fail_save=False, rate=None, enabled=Tr
     p['params'] = params or None
     res.box_cm = None
     if recorder is None:
-        res.box_cm = open_box('memory' if kind == 'async' else kind)
+        if kind == 's3calc':
+            # S3 cassette with storage-level sampling by a size-based calculator
+            res.box_cm = open_box('s3', s3_kwargs={'sampling_calculator': lambda category, size, recording: 0.5})
+        else:
+            res.box_cm = open_box('memory' if kind == 'async' else kind)
         res.box = res.box_cm.__enter__()
         inner = res.box.cassette
         if kind == 'async':
@@ -137,7 +141,10 @@ def execute(prog, faults, extractor=None, fail_save=False, rate=None, enabled=Tr
     import time as _t
     res.utc_before = _now_utc()
     res.t_before = _t.time()
+    import random as _random
+    _random.seed(20240917)                     # the process-wide generator belongs to the service: the framework must not draw from it
     res.outcome = in_caller_context(caller_context, lambda: res.live.run('live'))
+    res.global_random_after = _random.random()
     if enabled and not res.recorder.recording_enabled:
         res.recorder.enable_recording()       # a 'disable' kill switch fired during the run; later runs record again
     res.t_after = _t.time()
@@ -146,7 +153,9 @@ def execute(prog, faults, extractor=None, fail_save=False, rate=None, enabled=Tr
     res.draws = list(getattr(res.recorder._random, 'draws', []))[res.draws_start:]
     if with_twin:
         res.twin = Built(p, None, World(prog['seed_world'], raise_rate=prog['opts']['raise_rate']), faults=faults)
-        res.twin_outcome = in_caller_context(caller_context, lambda: res.twin.run('live'))      # the twin is called from the same context
+        _random.seed(20240917)
+        res.twin_outcome = in_caller_context(caller_context, lambda: res.twin.run('live'))
+        res.twin_global_random_after = _random.random()      # the twin is called from the same context
     return res
 
 
